@@ -286,6 +286,19 @@ func checkRangeSplit(p *core.Prog, r *core.Report) {
 	}
 	if !okFirstEnd {
 		isSize := func(v ssa.Value) bool {
+			if c, ok := core.SkipConv(v).(*ssa.Call); ok {
+				// r.Size() / r.Len(): a method of the range whose single return is end − start of its receiver
+				if h := core.StaticFn(c.Common()); h != nil && h.Blocks != nil && len(h.Blocks) == 1 && len(c.Call.Args) == 1 && c.Call.Args[0] == ssa.Value(recv) {
+					if rt, ok := h.Blocks[0].Instrs[len(h.Blocks[0].Instrs)-1].(*ssa.Return); ok && len(rt.Results) == 1 {
+						if bo, ok := core.SkipConv(rt.Results[0]).(*ssa.BinOp); ok && bo.Op == token.SUB {
+							fx, bx := core.LoadedField(bo.X)
+							fy, by := core.LoadedField(bo.Y)
+							return fx == endF && fy == startF && bx == ssa.Value(h.Params[0]) && by == ssa.Value(h.Params[0])
+						}
+					}
+				}
+				return false
+			}
 			bo, ok := core.SkipConv(v).(*ssa.BinOp)
 			return ok && bo.Op == token.SUB && isRecvField(bo.X, endF) && isRecvField(bo.Y, startF)
 		}
@@ -444,6 +457,53 @@ func checkRangesMergedFn(p *core.Prog, r *core.Report, name string) {
 			return
 		}
 		c, neg := core.StripNot(ifi.Cond)
+		// the comparison may be the result of a predicate of the package: a single-block function returning
+		// `a.End == b.Start && …` of two of its range parameters — read with the call's arguments
+		if hc, isCall := c.(*ssa.Call); isCall {
+			h := core.StaticFn(hc.Common())
+			if h == nil || h.Blocks == nil || h.Pkg != fn.Pkg {
+				return
+			}
+			var found *adj
+			core.Instrs(h, func(x ssa.Instruction) {
+				hb, ok := x.(*ssa.BinOp)
+				if !ok || hb.Op != token.EQL {
+					return
+				}
+				fx, bx := core.LoadedField(hb.X)
+				fy, by := core.LoadedField(hb.Y)
+				if fx == startF && fy == endF {
+					fx, bx, fy, by = fy, by, fx, bx
+				}
+				if fx != endF || fy != startF {
+					return
+				}
+				argOf := func(v ssa.Value) ssa.Value {
+					for i, hp := range h.Params {
+						if ssa.Value(hp) == v && i < len(hc.Call.Args) {
+							return hc.Call.Args[i]
+						}
+					}
+					return nil
+				}
+				eb, sb := argOf(bx), argOf(by)
+				if eb != nil && sb != nil {
+					found = &adj{endBase: eb, stBase: sb}
+				}
+			})
+			// the predicate must imply the adjacency: every `return true`-able path goes through the comparison being true.
+			// For the single-expression form `A && B` the result is a phi whose only non-false leaf lies behind A.
+			if found == nil || !predicateImplies(h, startF, endF) {
+				return
+			}
+			idx := 0
+			if neg {
+				idx = 1
+			}
+			found.ifi, found.eq = ifi, core.Edge{From: ifi.Block(), Idx: idx}
+			adjs = append(adjs, *found)
+			return
+		}
 		bo, ok := c.(*ssa.BinOp)
 		if !ok || (bo.Op != token.EQL && bo.Op != token.NEQ) {
 			return
@@ -518,6 +578,37 @@ func checkRangesMergedFn(p *core.Prog, r *core.Report, name string) {
 				}
 			}
 		}
+		{
+			// the chain's last element may also be re-read from the input by index (`nextRange = r[i]`) instead of being
+			// carried from the comparison: the index bookkeeping is not judged (see NotCovered), the element must come
+			// from the input slice
+			if !lastOK {
+				if u, ok := b1.(*ssa.UnOp); ok {
+					if ia, ok := u.X.(*ssa.IndexAddr); ok && ia.X == ssa.Value(fn.Params[0]) {
+						lastOK = true
+					}
+				}
+				if ph, ok := b1.(*ssa.Phi); ok {
+					lastOK = true
+					for _, e := range ph.Edges {
+						inInput := false
+						if u, ok := e.(*ssa.UnOp); ok {
+							if ia, ok := u.X.(*ssa.IndexAddr); ok && ia.X == ssa.Value(fn.Params[0]) {
+								inInput = true
+							}
+						}
+						for _, a := range adjs {
+							if a.stBase == e {
+								inInput = true
+							}
+						}
+						if !inInput {
+							lastOK = false
+						}
+					}
+				}
+			}
+		}
 		r.Check(okRoles && okChain && lastOK, "C13.R6", fmt.Sprintf("%s/bounds#%d", name, i+1), "a merged range runs from the start of the first range of an adjacency chain to the exclusive end of its last range, each link having been compared (end == next start)", "NewRange arguments are not (first.StartBlock, last.ExclusiveEndBlock) of a compared chain", p.Pos(c.Pos()))
 		q := core.PathQuery{Fn: fn, CutEdge: func(e core.Edge) bool { return containsEdge(eqEdges, e) }}
 		_, reach := q.CanReach(nil, func(x ssa.Instruction) bool { return x == c })
@@ -564,4 +655,70 @@ func checkRangesMergedFn(p *core.Prog, r *core.Report, name string) {
 		okElems = false
 	})
 	r.Check(okElems && n >= 2, "C13.R6", name+"/elements", "every range of the result is either an input range kept as is or a merged range", "something else is appended to the result", p.Pos(fn.Pos()))
+}
+
+// predicateImplies: the boolean function h can only answer true when its comparison `x.End == y.Start` held: with the
+// true edge of that comparison removed, no return of a value that can be true is reachable (for `A && B` compiled to a
+// phi, the non-constant leaf of the phi lies behind A's true edge).
+func predicateImplies(h *ssa.Function, startF, endF *types.Var) bool {
+	var eqEdges []core.Edge
+	var eqVal ssa.Value
+	core.Instrs(h, func(in ssa.Instruction) {
+		bo, ok := in.(*ssa.BinOp)
+		if !ok || bo.Op != token.EQL {
+			return
+		}
+		fx, _ := core.LoadedField(bo.X)
+		fy, _ := core.LoadedField(bo.Y)
+		if !((fx == endF && fy == startF) || (fx == startF && fy == endF)) {
+			return
+		}
+		eqVal = bo
+		for _, ref := range *bo.Referrers() {
+			if ifi, ok := ref.(*ssa.If); ok {
+				eqEdges = append(eqEdges, core.Edge{From: ifi.Block(), Idx: 0})
+			}
+		}
+	})
+	if eqVal == nil {
+		return false
+	}
+	ok := true
+	core.Instrs(h, func(in ssa.Instruction) {
+		rt, isRet := in.(*ssa.Return)
+		if !isRet || len(rt.Results) != 1 {
+			return
+		}
+		var mayBeTrue func(v ssa.Value, from *ssa.BasicBlock) bool
+		mayBeTrue = func(v ssa.Value, from *ssa.BasicBlock) bool {
+			switch x := v.(type) {
+			case *ssa.Const:
+				return x.Value != nil && x.Value.ExactString() == "true"
+			case *ssa.Phi:
+				for i, e := range x.Edges {
+					pred := x.Block().Preds[i]
+					if k, isK := e.(*ssa.Const); isK {
+						if k.Value != nil && k.Value.ExactString() == "true" {
+							return true
+						}
+						continue
+					}
+					if e == eqVal {
+						continue // true only if the comparison held
+					}
+					// another leaf: fine if its predecessor is only reachable over the comparison's true edge
+					q := core.PathQuery{Fn: h, CutEdge: func(ed core.Edge) bool { return containsEdge(eqEdges, ed) }}
+					if _, reach := q.CanReach(nil, func(y ssa.Instruction) bool { return y == pred.Instrs[0] }); reach {
+						return true
+					}
+				}
+				return false
+			}
+			return v != eqVal
+		}
+		if mayBeTrue(rt.Results[0], rt.Block()) {
+			ok = false
+		}
+	})
+	return ok
 }
